@@ -23,6 +23,43 @@ func init() {
 	gens["C04"] = genC04
 }
 
+// asTT hands a sample to the t-tests in one of the forms their interface accepts (picked from the data):
+// a Sample value, a pointer to one, a StreamStats the values were added to, or two StreamStats shards of unequal
+// size combined into one. The statistic is a function of the multiset of values, not of its container.
+func asTT(xs []float64) stats.TTestSample {
+	h := uint64(len(xs))
+	for _, x := range xs {
+		h = h*1099511628211 + math.Float64bits(x)>>7
+	}
+	if len(xs) < 2 { // (a one-value stream has no variance: StreamStats is only constrained from two values on)
+		h = 0
+	}
+	switch h % 5 {
+	case 0:
+		return &stats.Sample{Xs: xs}
+	case 1:
+		st := &stats.StreamStats{}
+		for _, x := range xs {
+			st.Add(x)
+		}
+		return st
+	case 2:
+		if len(xs) >= 3 {
+			k := 1 + int(h>>8)%(len(xs)-1)
+			a, b := &stats.StreamStats{}, &stats.StreamStats{}
+			for _, x := range xs[:k] {
+				a.Add(x)
+			}
+			for _, x := range xs[k:] {
+				b.Add(x)
+			}
+			a.Combine(b)
+			return a
+		}
+	}
+	return stats.Sample{Xs: xs}
+}
+
 func execTT(a []Tok) string {
 	x1 := a[1].Fs()
 	x2 := x1 // the same sample named twice: one slice for both parameters
@@ -35,13 +72,13 @@ func execTT(a []Tok) string {
 	var err error
 	switch a[0].Atom {
 	case "pooled":
-		r, err = stats.TwoSampleTTest(stats.Sample{Xs: x1}, stats.Sample{Xs: x2}, alt)
+		r, err = stats.TwoSampleTTest(asTT(x1), asTT(x2), alt)
 	case "welch":
-		r, err = stats.TwoSampleWelchTTest(stats.Sample{Xs: x1}, stats.Sample{Xs: x2}, alt)
+		r, err = stats.TwoSampleWelchTTest(asTT(x1), asTT(x2), alt)
 	case "paired":
 		r, err = stats.PairedTTest(x1, x2, mu0, alt)
 	case "one":
-		r, err = stats.OneSampleTTest(stats.Sample{Xs: x1}, mu0, alt)
+		r, err = stats.OneSampleTTest(asTT(x1), mu0, alt)
 	}
 	switch err {
 	case nil:
